@@ -216,16 +216,20 @@ func controlDependsOn(fn *ssa.Function, in ssa.Instruction, condPred func(ssa.Va
 			continue
 		}
 		ifi, ok := b.Instrs[len(b.Instrs)-1].(*ssa.If)
-		if !ok || !dependsOn(ifi.Cond, condPred) {
+		if !ok || !b.Dominates(target) || !dependsOn(ifi.Cond, condPred) {
 			continue
 		}
-		pd0 := !exitReachableAvoiding(b.Succs[0], target)
-		pd1 := !exitReachableAvoiding(b.Succs[1], target)
-		r0 := b.Succs[0] == target || blockReaches(b.Succs[0], target, nil)
-		r1 := b.Succs[1] == target || blockReaches(b.Succs[1], target, nil)
-		if (pd0 && r0 && !pd1) || (pd1 && r1 && !pd0) {
-			return true
+		// the target is reached from exactly one successor of the branch (without coming back through the branch) ...
+		r0 := b.Succs[0] == target || blockReaches(b.Succs[0], target, b)
+		r1 := b.Succs[1] == target || blockReaches(b.Succs[1], target, b)
+		if r0 == r1 {
+			continue
 		}
+		// ... and it is not simply what follows the branch on every path (e.g. the block after a loop)
+		if !exitReachableAvoiding(b, target) {
+			continue
+		}
+		return true
 	}
 	return false
 }
